@@ -1239,6 +1239,10 @@ func c16RandomObject(r *rand.Rand) []byte {
 	return []byte("{" + strings.Join(parts, ",") + "}")
 }
 
+// c16WantEntries: when >= 0, the number of entries the file put in place is known to hold (files written by the generator
+// exactly as Save lays them out); Load must give them back.
+var c16WantEntries = -1
+
 func c16RunFile(ctx *Ctx, path string, f c16File) {
 	if err := os.WriteFile(path, f.Content, 0o644); err != nil {
 		panic(err)
@@ -1289,12 +1293,27 @@ func c16RunFile(ctx *Ctx, path string, f c16File) {
 	if sh.MaxSize <= 0 {
 		ctx.R.Path("object-maxsize-nonpositive-after-load", 1)
 	}
+	if c16WantEntries >= 0 && (lerr != nil || len(sh.Entries) != c16WantEntries) {
+		ctx.R.Violate(vlib.Violation{Property: "C16", Clause: "roundtrip", Path: "Load",
+			Detail: fmt.Sprintf("a history file laid out as Save writes it, holding %d entries (%d bytes), loads as %d entries (error: %v)", c16WantEntries, len(f.Content), len(sh.Entries), lerr), Witness: cs})
+		return
+	}
 	addPath := "Load+AddEntry"
 	if lerr != nil {
 		addPath = "Load(err)+AddEntry"
 	}
+	nBefore := len(sh.Entries)
+	lastWasQ := lerr == nil && nBefore > 0 && sh.Entries[nBefore-1].Query == "q"
 	if !ctx.R.Guard("C16", addPath, cs, func() { sh.AddEntry("q", 1, "", time.Millisecond) }) {
 		return
+	}
+	if lastWasQ {
+		// the loaded log ends with the query that is searched again at once: the last entry is updated, none is added
+		ctx.R.Path("files-ending-with-the-repeated-query", 1)
+		if len(sh.Entries) > nBefore {
+			ctx.R.Violate(vlib.Violation{Property: "C16", Clause: "repeat-added-an-entry", Path: addPath,
+				Detail: fmt.Sprintf("the loaded history ends with query \"q\"; recording \"q\" again left %d entries instead of %d (last entry stamped %s)", len(sh.Entries), nBefore, sh.Entries[nBefore-1].Timestamp.Format(time.RFC3339)), Witness: cs})
+		}
 	}
 	if n := len(sh.Entries); n == 0 || sh.Entries[n-1].Query != "q" || sh.Entries[n-1].ResultsCount != 1 {
 		last := "none"
@@ -1446,9 +1465,14 @@ func engineHistFiles(ctx *Ctx) {
 		}
 		nn := []int{2, 3, 5, 8, 99, 100, 101}[r.Intn(7)]
 		perm := r.Perm(nn)
-		mode := k % 4
+		mode := k % 5
 		tsOf := func(i int) int {
 			switch mode {
+			case 4:
+				if i == nn-1 {
+					return 20000000 // the last entry is dated decades ahead (a clock that was wrong, a file from another machine)
+				}
+				return i
 			case 0:
 				return nn - 1 - i // newest first
 			case 1:
@@ -1462,10 +1486,33 @@ func engineHistFiles(ctx *Ctx) {
 				return i
 			}
 		}
-		f := c16File{"valid", fmt.Sprintf("as Save writes it: %d entries, timestamps %s", nn, []string{"descending", "shuffled", "all equal", "one in the future"}[mode]),
-			c16ValidFileTS(nn, []string{"100", "100", "5", "1000"}[r.Intn(4)], r.Intn(3) == 0, r.Intn(50), tsOf)}
+		f := c16File{"valid", fmt.Sprintf("as Save writes it: %d entries, timestamps %s", nn, []string{"descending", "shuffled", "all equal", "one in the future", "last one in the future"}[mode]),
+			c16ValidFileTS(nn, []string{"100", "100", "5", "1000"}[r.Intn(4)], mode == 4 || r.Intn(3) == 0, r.Intn(50), tsOf)}
 		c16RunFile(ctx, path, f)
 		ctx.R.Path("files-timestamps-out-of-order", 1)
+	}
+	// 2e. large histories (long queries are legal: the CLI accepts 1000 bytes, the library any string): 1-17 MiB on disk
+	for k, spec := range [][2]int{{100, 11 << 10}, {100, 50 << 10}, {1, 6 << 20}, {90, 100 << 10}, {100, 170 << 10}, {3, 3 << 20}} {
+		if k%ctx.NShards != ctx.Shard {
+			continue
+		}
+		nE, qLen := spec[0], spec[1]
+		var b strings.Builder
+		b.WriteString("{\n  \"entries\": [")
+		for i := 0; i < nE; i++ {
+			if i > 0 {
+				b.WriteString(",")
+			}
+			fmt.Fprintf(&b, "\n    {\n      \"query\": \"%s %d\",\n      \"timestamp\": \"2025-03-04T05:06:%02d.5Z\",\n      \"results_count\": %d\n    }", strings.Repeat("longquery ", qLen/10), i, i%60, i%9)
+		}
+		b.WriteString("\n  ],\n  \"max_size\": 100\n}")
+		c16WantEntries = nE
+		c16RunFile(ctx, path, c16File{"valid", fmt.Sprintf("as Save writes it: %d entries with queries of %d bytes", nE, qLen), []byte(b.String())})
+		c16WantEntries = -1
+		ctx.R.Path("files-large", 1)
+		if b.Len() > 4<<20 {
+			ctx.R.Path("files-over-4MiB", 1)
+		}
 	}
 	// 3. generated
 	n := ctx.N(2300, 46000)
